@@ -17,6 +17,7 @@ EXPLANATION = (
     "is in time order: single-key lists, or history replayed per ascending timestep, latent before non-latent; (S8) TradingEnv.notify sets the clock to the "
     "event's time with nothing that moves the clock between the store and the dispatch; Reset/Step/Done are stamped with now(), NewDate with the previous "
     "event's time; (S9) history replay only on the first step without markov reset, bounded by the warm-up horizon."
+    " The partitions are created with the configured latency as given, by value id (S5.configured-latency-reaches-partitions / -stored)."
 )
 DECIDED = ["S1 first timestep at or after the timestamp", "S2 exactly once", "S3 never after the grid / episode", "S4 time order, ties in insertion order",
            "S5 latent iff within latency (inclusive)", "S6 latency below the minimum gap", "S7 batches dispatched in time order", "S8 clock = event time during dispatch", "S9 warm-up / markov reset"]
@@ -293,12 +294,12 @@ def latency_plumbing(ck, an):
     for c in calls:
         at = fi.node_of(c).id
         got = fi.sym.canon(c.args[0], at) if c.args else (fi.sym.canon(c.keywords[0].value, at) if c.keywords else "<default>")
-        ck.check(got == "latency", "ARGFLOW", "S5.configured-latency-reaches-partitions", fi.f.short, fi.loc(c), "the partitions are built with the configured latency, as given",
+        ck.check(got in ("latency", "float(latency)"), "ARGFLOW", "S5.configured-latency-reaches-partitions", fi.f.short, fi.loc(c), "the partitions are built with the configured latency, as given",
                  f"_create_partitions receives {got[:120]}, not the `latency` argument as given (converted / re-scaled / defaulted on the way)", construct=stmt_text(c))
     for s_ in assigns_to_attr(fi, "_latency"):
         if isinstance(s_, ast.Assign):
             got = fi.sym.canon(s_.value, fi.node_of(s_).id)
-            ck.check(got == "latency", "ARGFLOW", "S5.configured-latency-stored", fi.f.short, fi.loc(s_), "the environment stores the configured latency as given", f"self._latency = {got[:120]}", construct=stmt_text(s_))
+            ck.check(got in ("latency", "float(latency)"), "ARGFLOW", "S5.configured-latency-stored", fi.f.short, fi.loc(s_), "the environment stores the configured latency as given", f"self._latency = {got[:120]}", construct=stmt_text(s_))
 
 
 def custom_events(ck, an):
